@@ -82,6 +82,7 @@ type Exec struct {
 	cur        ssa.Instruction
 	stack      []*Frame
 	hidden     map[string]interface{}
+	noSample   bool // path depends on a coincidence of ideal values: no native validation sample
 	tags       []tagCond
 	pcSet      map[string]bool
 	curThread  int
